@@ -340,7 +340,7 @@ def run(ctx):
             stuck += 1 if st else 0
             logs.append({'events': evs})
             for c, got in zip(pa, res):
-                if got != baseline[c]:
+                if got is not None and got != baseline[c]:
                     ctx.violation('concurrent-result-differs:%s' % c[0],
                                   'a call returned a different result when another call ran interleaved with it',
                                   {'calls': [list(x) for x in pa], 'schedule': list(s), 'call': list(c),
@@ -362,7 +362,7 @@ def run(ctx):
             res, evs, st = run_schedule(list(pa), sc, base_rej)
             forced += 1
             for c, got in zip(pa, res):
-                if got != base_rej[c]:
+                if got is not None and got != base_rej[c]:
                     ctx.violation('concurrent-result-differs:parse-error-report',
                                   'the error reported for a rejected input depends on another rejected input parsed at the same time',
                                   {'calls': [list(x) for x in pa], 'schedule': list(sc), 'call': list(c),
@@ -376,7 +376,7 @@ def run(ctx):
             stuck += 1 if st else 0
             logs.append({'events': evs})
             for c, got in zip(tr3, res):
-                if got != baseline[c]:
+                if got is not None and got != baseline[c]:
                     ctx.violation('concurrent-result-differs:%s' % c[0],
                                   'a call returned a different result when other calls ran interleaved with it',
                                   {'calls': [list(x) for x in tr3], 'schedule': list(s), 'call': list(c),
